@@ -223,9 +223,10 @@ class Model:
             res.append('connected flag still set')
         if c.namespaces:
             res.append(f'namespaces {c.namespaces!r}')
-        if c.callbacks:
-            res.append(f'callbacks {c.callbacks!r}')
-        if c._binary_packet is not None:
+        from ..introspect import callbacks_of, client_partial_packet
+        if any(callbacks_of(c).values()):
+            res.append(f'callbacks {callbacks_of(c)!r}')
+        if client_partial_packet(c) is not None:
             res.append('half-received binary packet kept')
         if c.sid is not None:
             res.append(f'sid {c.sid!r}')
@@ -367,8 +368,10 @@ class Model:
         return (w.phase, tuple(sorted(w.accepted)), bool(w.pending_cb),
                 w.half_binary, w.gen, c.connected,
                 tuple(sorted(c.namespaces)), w.eio.state,
-                c._binary_packet is not None,
-                tuple(sorted(repr(k) for d in c.callbacks.values()
+                __import__('mc.introspect', fromlist=['x'])
+                .client_partial_packet(c) is not None,
+                tuple(sorted(repr(k) for d in __import__(
+                    'mc.introspect', fromlist=['x']).callbacks_of(c).values()
                              for k in d)))
 
     def probe(self, w):
